@@ -291,7 +291,7 @@ func (u *upstream) createClient(addr string) (*client, error) {
 	// start client
 	go func() {
 		c.Start()
-		u.removeClient(addr)
+		u.removeClientIfCurrent(addr, c)
 	}()
 	u.addClientLocked(addr, c)
 	return c, nil
@@ -306,6 +306,19 @@ func (u *upstream) addClientLocked(addr string, c *client) {
 func (u *upstream) removeClient(addr string) {
 	u.clientsMu.Lock()
 	defer u.clientsMu.Unlock()
+	u.removeClientLocked(addr)
+}
+
+// removeClientIfCurrent removes the client of addr only when it is still c:
+// a client which has been stopped by a hosts update could exit after a new
+// client of the same addr was created, the new one must stay in the table,
+// otherwise nobody would stop it.
+func (u *upstream) removeClientIfCurrent(addr string, c *client) {
+	u.clientsMu.Lock()
+	defer u.clientsMu.Unlock()
+	if cur, ok := u.loadClients()[addr]; !ok || cur != c {
+		return
+	}
 	u.removeClientLocked(addr)
 }
 
